@@ -7,6 +7,7 @@ mod tc;
 mod sync;
 mod pr;
 mod rg;
+mod fleet;
 
 fn main() {
     let args: Vec<String> = std::env::args().collect();
@@ -23,6 +24,8 @@ fn main() {
         "pr-hist" => pr::hist(&a),
         "rg-walk" => rg::walk(&a),
         "rg-hist" => rg::hist(&a),
+        "fleet-scripts" => fleet::scripts(&a),
+        "fleet-broadcast" => fleet::broadcast(&a),
         other => {
             eprintln!("unknown engine {other}");
             2
